@@ -115,7 +115,9 @@ def props_report(prop):
     vfile = os.path.join("Props", prop + ".v")
     if not os.path.exists(os.path.join(COQ, vfile)):
         return {"ok": False, "theorems": [], "log": "missing " + vfile}
-    ok, log = coq_make([vfile + "o"])
+    # the runners used by the correspondence must be rebuilt too when gen/Extracted.v changed under them
+    runs = [os.path.join("Run", f + "o") for f in sorted(os.listdir(os.path.join(COQ, "Run"))) if f.endswith(".v")]
+    ok, log = coq_make([vfile + "o"] + runs)
     if not ok:
         return {"ok": False, "theorems": [], "log": log}
     # re-run coqc on the property file alone to capture its output (cheap: deps are compiled)
@@ -292,6 +294,10 @@ def g_rscript(s):
             out.append("RFail Interrupted")
         elif t[0] in ("o", "b"):
             out.append("RFail OtherErr")
+        elif t[0] == "u":
+            out.append("RFail UnexpectedEof")   # the SOURCE itself reports UnexpectedEof
+        elif t[0] == "y":
+            out.append("RFail WriteZero")
     return "[" + "; ".join(out) + "]"
 
 
@@ -308,6 +314,10 @@ def g_wscript(s):
             out.append("WFail Interrupted")
         elif t[0] in ("o", "b"):
             out.append("WFail OtherErr")    # WouldBlock is just another non-retried error kind for kestrel
+        elif t[0] == "u":
+            out.append("WFail UnexpectedEof")
+        elif t[0] == "y":
+            out.append("WFail WriteZero")       # the SINK itself reports WriteZero
     return "[" + "; ".join(out) + "]"
 
 
@@ -316,7 +326,8 @@ def g_fscript(s):
         return "[]"
     out = []
     for t in s.split(","):
-        out.append({"k": "FOk", "i": "FFail Interrupted", "o": "FFail OtherErr"}[t[0]])
+        out.append({"k": "FOk", "i": "FFail Interrupted", "o": "FFail OtherErr", "b": "FFail OtherErr",
+                    "u": "FFail UnexpectedEof", "y": "FFail WriteZero"}[t[0]])
     return "[" + "; ".join(out) + "]"
 
 
